@@ -57,6 +57,13 @@ impl Drop for E {
 impl Clone for E {
     fn clone(&self) -> E { tick(); E::new(self.0 + 32) }
 }
+/// element types of the sweeps: `E` (sized, identified) and `Zt` (zero-sized: all instances share ledger slot 63)
+trait El: Sized + Clone { fn new(id: usize) -> Self; fn idv(&self) -> usize; const ZST: bool; }
+impl El for E { fn new(id: usize) -> E { E::new(id) } fn idv(&self) -> usize { self.0 } const ZST: bool = false; }
+struct Zt;
+impl El for Zt { fn new(_id: usize) -> Zt { CREATED.with(|c| c.borrow_mut()[63] += 1); Zt } fn idv(&self) -> usize { 0 } const ZST: bool = true; }
+impl Drop for Zt { fn drop(&mut self) { DROPS.with(|d| d.borrow_mut()[63] += 1); } }
+impl Clone for Zt { fn clone(&self) -> Zt { tick(); <Zt as El>::new(0) } }
 /// one call of caller-supplied code: panics if it is the chosen one
 fn tick() {
     let k = CALLS.with(|c| { let k = c.get(); c.set(k + 1); k });
@@ -85,7 +92,7 @@ fn verdict() -> Option<(Kind, String)> {
     None
 }
 
-fn arr<N: ArrayLength>() -> GenericArray<E, N> { GenericArray::generate(E::new) }
+fn arr<X: El, N: ArrayLength>() -> GenericArray<X, N> { GenericArray::generate(X::new) }
 
 /// runs `f` with tracking on; returns true if it panicked
 fn tracked(f: impl FnOnce()) -> bool {
@@ -99,7 +106,7 @@ fn tracked(f: impl FnOnce()) -> bool {
 
 struct Cfg { scenario: String, want: Kind }
 
-fn sweep<N: ArrayLength>(cfg: &Cfg) -> Option<String> {
+fn sweep<X: El, N: ArrayLength>(cfg: &Cfg) -> Option<String> {
     let n = N::USIZE;
     let quiet = std::panic::take_hook();
     std::panic::set_hook(Box::new(|_| {}));
@@ -111,16 +118,16 @@ fn sweep<N: ArrayLength>(cfg: &Cfg) -> Option<String> {
             for skip in 0..=(if sc == "iter.nth" || sc == "iter.nth_back" { n + 1 } else { 0 }) {
                 // a leak is only a finding when caller code (not a destructor) panicked: Rust's unwinding rules
                 // themselves abandon elements when a destructor panics
-                let pes: Vec<usize> = if cfg.want == Kind::Leak || cfg.want == Kind::BlockLeak || cfg.want == Kind::ZeroSize { vec![usize::MAX] } else { (0..n).chain([usize::MAX]).collect() };
+                let pes: Vec<usize> = if X::ZST || cfg.want == Kind::Leak || cfg.want == Kind::BlockLeak || cfg.want == Kind::ZeroSize { vec![usize::MAX] } else { (0..n).chain([usize::MAX]).collect() };
                 for &pe in &pes {
                     for pc in (0..(2 * n + 3)).chain([usize::MAX]) {
                         if pe != usize::MAX && pc != usize::MAX { continue; }
                         reset(pe, pc);
-                        let panicked = tracked(|| run::<N>(sc, f, b, skip));
+                        let panicked = tracked(|| run::<X, N>(sc, f, b, skip));
                         if std::env::var("MREPLAY_DEBUG").is_ok() { eprintln!("N={n} f={f} b={b} skip={skip} pe={pe} pc={pc} panicked={panicked} -> {:?}", verdict()); }
                         if let Some((k, msg)) = verdict() {
                             if k == cfg.want && (panicked || cfg.want == Kind::ZeroSize || cfg.want == Kind::DoubleDrop) {
-                                found = Some(format!("scenario={sc} N={n} front={f} back={b} skip={skip} panic_elem={} panic_call={} panicked={panicked}: {msg}",
+                                found = Some(format!("scenario={sc} element={} N={n} front={f} back={b} skip={skip} panic_elem={} panic_call={} panicked={panicked}: {msg}", if X::ZST { "zero-sized" } else { "sized" },
                                     if pe == usize::MAX { "-".to_string() } else { pe.to_string() }, if pc == usize::MAX { "-".to_string() } else { pc.to_string() }));
                                 break 'outer;
                             }
@@ -134,62 +141,62 @@ fn sweep<N: ArrayLength>(cfg: &Cfg) -> Option<String> {
     found
 }
 
-fn position<N: ArrayLength>(f: usize, b: usize) -> generic_array::GenericArrayIter<E, N> {
-    let mut it = arr::<N>().into_iter();
+fn position<X: El, N: ArrayLength>(f: usize, b: usize) -> generic_array::GenericArrayIter<X, N> {
+    let mut it = arr::<X, N>().into_iter();
     for _ in 0..f { std::mem::forget(it.next()); DROPS.with(|d| d.borrow_mut()[0] += 0); }
     for _ in 0..b { std::mem::forget(it.next_back()); }
     // forgotten elements count as handed to the caller: mark them dropped once so they are not reported as leaks
     let n = N::USIZE;
-    DROPS.with(|d| { let mut d = d.borrow_mut(); for i in 0..f { d[i] += 1; } for i in (n - b)..n { d[i] += 1; } });
+    DROPS.with(|d| { let mut d = d.borrow_mut(); if X::ZST { d[63] += (f + b) as u8; } else { for i in 0..f { d[i] += 1; } for i in (n - b)..n { d[i] += 1; } } });
     it
 }
 
-struct Src { left: usize, next_id: usize }
-impl Iterator for Src {
-    type Item = E;
-    fn next(&mut self) -> Option<E> {
+struct Src<X> { left: usize, next_id: usize, _x: std::marker::PhantomData<X> }
+impl<X: El> Iterator for Src<X> {
+    type Item = X;
+    fn next(&mut self) -> Option<X> {
         tick();
         if self.left == 0 { return None; }
         self.left -= 1;
         self.next_id += 1;
-        Some(E::new(self.next_id - 1))
+        Some(X::new(self.next_id - 1))
     }
     fn size_hint(&self) -> (usize, Option<usize>) { tick(); (0, None) }
 }
 
-fn run<N: ArrayLength>(sc: &str, f: usize, b: usize, skip: usize) {
+fn run<X: El, N: ArrayLength>(sc: &str, f: usize, b: usize, skip: usize) {
     let n = N::USIZE;
     match sc {
-        "iter.nth" => { let mut it = position::<N>(f, b); let r = catch_unwind(AssertUnwindSafe(|| it.nth(skip))); drop(it); if let Err(e) = r { std::panic::resume_unwind(e) } }
-        "iter.nth_back" => { let mut it = position::<N>(f, b); let r = catch_unwind(AssertUnwindSafe(|| it.nth_back(skip))); drop(it); if let Err(e) = r { std::panic::resume_unwind(e) } }
-        "iter.count" => { let it = position::<N>(f, b); let _ = it.count(); }
-        "iter.last" => { let it = position::<N>(f, b); let _ = it.last(); }
-        "iter.drop" => { let it = position::<N>(f, b); drop(it); }
-        "iter.next" => { let mut it = position::<N>(f, b); let _ = it.next(); }
-        "iter.next_back" => { let mut it = position::<N>(f, b); let _ = it.next_back(); }
-        "iter.fold" => { let it = position::<N>(f, b); let _ = it.fold(0usize, |acc, x| { tick(); acc + x.0 }); }
-        "iter.rfold" => { let it = position::<N>(f, b); let _ = it.rfold(0usize, |acc, x| { tick(); acc + x.0 }); }
-        "iter.clone" => { let it = position::<N>(f, b); let r = catch_unwind(AssertUnwindSafe(|| it.clone())); drop(it); match r { Ok(c) => drop(c), Err(e) => std::panic::resume_unwind(e) } }
-        "generate" => { let a: GenericArray<E, N> = GenericArray::generate(|i| { tick(); E::new(i) }); drop(a); }
-        "box_generate" => { let a = Box::<GenericArray<E, N>>::generate(|i| { tick(); E::new(i) }); drop(a); }
-        "map" => { let a = arr::<N>(); let m: GenericArray<E, N> = a.map(|x| { tick(); E::new(x.0 + 16) }); drop(m); }
-        "fold" => { let a = arr::<N>(); let _ = a.fold(0usize, |acc, x| { tick(); acc + x.0 }); }
-        "zip" => { let a = arr::<N>(); let b2: GenericArray<E, N> = GenericArray::generate(|i| E::new(i + 16)); let z: GenericArray<E, N> = a.zip(b2, |x, y| { tick(); E::new(x.0 + y.0 + 16) }); drop(z); }
+        "iter.nth" => { let mut it = position::<X, N>(f, b); let r = catch_unwind(AssertUnwindSafe(|| it.nth(skip))); drop(it); if let Err(e) = r { std::panic::resume_unwind(e) } }
+        "iter.nth_back" => { let mut it = position::<X, N>(f, b); let r = catch_unwind(AssertUnwindSafe(|| it.nth_back(skip))); drop(it); if let Err(e) = r { std::panic::resume_unwind(e) } }
+        "iter.count" => { let it = position::<X, N>(f, b); let _ = it.count(); }
+        "iter.last" => { let it = position::<X, N>(f, b); let _ = it.last(); }
+        "iter.drop" => { let it = position::<X, N>(f, b); drop(it); }
+        "iter.next" => { let mut it = position::<X, N>(f, b); let _ = it.next(); }
+        "iter.next_back" => { let mut it = position::<X, N>(f, b); let _ = it.next_back(); }
+        "iter.fold" => { let it = position::<X, N>(f, b); let _ = it.fold(0usize, |acc, x| { tick(); acc + x.idv() }); }
+        "iter.rfold" => { let it = position::<X, N>(f, b); let _ = it.rfold(0usize, |acc, x| { tick(); acc + x.idv() }); }
+        "iter.clone" => { let it = position::<X, N>(f, b); let r = catch_unwind(AssertUnwindSafe(|| it.clone())); drop(it); match r { Ok(c) => drop(c), Err(e) => std::panic::resume_unwind(e) } }
+        "generate" => { let a: GenericArray<X, N> = GenericArray::generate(|i| { tick(); X::new(i) }); drop(a); }
+        "box_generate" => { let a = Box::<GenericArray<X, N>>::generate(|i| { tick(); X::new(i) }); drop(a); }
+        "map" => { let a = arr::<X, N>(); let m: GenericArray<X, N> = a.map(|x| { tick(); X::new(x.idv() + 16) }); drop(m); }
+        "fold" => { let a = arr::<X, N>(); let _ = a.fold(0usize, |acc, x| { tick(); acc + x.idv() }); }
+        "zip" => { let a = arr::<X, N>(); let b2: GenericArray<X, N> = GenericArray::generate(|i| X::new(i + 16)); let z: GenericArray<X, N> = a.zip(b2, |x, y| { tick(); X::new(x.idv() + y.idv() + 16) }); drop(z); }
         // only one of the two element types needs drop (selects between the guarded and the unguarded branch)
-        "zip.left_plain" => { let a: GenericArray<u32, N> = GenericArray::generate(|i| i as u32); let b2 = arr::<N>(); let z: GenericArray<u32, N> = a.zip(b2, |x, y| { tick(); x + y.0 as u32 }); drop(z); }
-        "zip.right_plain" => { let a = arr::<N>(); let b2: GenericArray<u32, N> = GenericArray::generate(|i| i as u32); let z: GenericArray<u32, N> = a.zip(b2, |x, y| { tick(); x.0 as u32 + y }); drop(z); }
-        "zip.ref_owned" => { let a = arr::<N>(); let b2: GenericArray<E, N> = GenericArray::generate(|i| E::new(i + 16)); let z: GenericArray<u32, N> = (&a).zip(b2, |x, y| { tick(); (x.0 + y.0) as u32 }); drop(z); drop(a); }
-        "zip.owned_ref" => { let a = arr::<N>(); let b2: GenericArray<E, N> = GenericArray::generate(|i| E::new(i + 16)); let z: GenericArray<u32, N> = a.zip(&b2, |x, y| { tick(); (x.0 + y.0) as u32 }); drop(z); drop(b2); }
-        "map.ref" => { let a = arr::<N>(); let m: GenericArray<E, N> = (&a).map(|x| { tick(); E::new(x.0 + 16) }); drop(m); drop(a); }
-        "fold.ref" => { let a = arr::<N>(); let _ = (&a).fold(0usize, |acc, x| { tick(); acc + x.0 }); drop(a); }
-        "clone" => { let a = arr::<N>(); let r = catch_unwind(AssertUnwindSafe(|| a.clone())); drop(a); match r { Ok(c) => drop(c), Err(e) => std::panic::resume_unwind(e) } }
-        "try_from_iter" => { for cnt in [n, n + 1, n.saturating_sub(1)] { let r = GenericArray::<E, N>::try_from_iter(Src { left: cnt, next_id: 0 }); drop(r); } }
-        "remove" => { if n > 0 { let a = arr::<N>(); let r = catch_unwind(AssertUnwindSafe(|| dispatch_remove::<N>(a, n + skip))); if let Err(e) = r { std::panic::resume_unwind(e) } } }
+        "zip.left_plain" => { let a: GenericArray<u32, N> = GenericArray::generate(|i| i as u32); let b2 = arr::<X, N>(); let z: GenericArray<u32, N> = a.zip(b2, |x, y| { tick(); x + y.idv() as u32 }); drop(z); }
+        "zip.right_plain" => { let a = arr::<X, N>(); let b2: GenericArray<u32, N> = GenericArray::generate(|i| i as u32); let z: GenericArray<u32, N> = a.zip(b2, |x, y| { tick(); x.idv() as u32 + y }); drop(z); }
+        "zip.ref_owned" => { let a = arr::<X, N>(); let b2: GenericArray<X, N> = GenericArray::generate(|i| X::new(i + 16)); let z: GenericArray<u32, N> = (&a).zip(b2, |x, y| { tick(); (x.idv() + y.idv()) as u32 }); drop(z); drop(a); }
+        "zip.owned_ref" => { let a = arr::<X, N>(); let b2: GenericArray<X, N> = GenericArray::generate(|i| X::new(i + 16)); let z: GenericArray<u32, N> = a.zip(&b2, |x, y| { tick(); (x.idv() + y.idv()) as u32 }); drop(z); drop(b2); }
+        "map.ref" => { let a = arr::<X, N>(); let m: GenericArray<X, N> = (&a).map(|x| { tick(); X::new(x.idv() + 16) }); drop(m); drop(a); }
+        "fold.ref" => { let a = arr::<X, N>(); let _ = (&a).fold(0usize, |acc, x| { tick(); acc + x.idv() }); drop(a); }
+        "clone" => { let a = arr::<X, N>(); let r = catch_unwind(AssertUnwindSafe(|| a.clone())); drop(a); match r { Ok(c) => drop(c), Err(e) => std::panic::resume_unwind(e) } }
+        "try_from_iter" => { for cnt in [n, n + 1, n.saturating_sub(1)] { let r = GenericArray::<X, N>::try_from_iter(Src::<X> { left: cnt, next_id: 0, _x: std::marker::PhantomData }); drop(r); } }
+        "remove" => { if n > 0 { let a = arr::<X, N>(); let r = catch_unwind(AssertUnwindSafe(|| dispatch_remove::<X, N>(a, n + skip))); if let Err(e) = r { std::panic::resume_unwind(e) } } }
         _ => { eprintln!("unknown scenario {sc}"); std::process::exit(3); }
     }
     let _ = (f, b, skip);
 }
-fn dispatch_remove<N: ArrayLength>(_a: GenericArray<E, N>, _idx: usize) {
+fn dispatch_remove<X: El, N: ArrayLength>(_a: GenericArray<X, N>, _idx: usize) {
     // Remove needs N: Sub<B1>; exercised for U3 only (see main)
 }
 
@@ -284,16 +291,17 @@ fn sem_chunks<N: ArrayLength>() -> Option<String> {
     }
     None
 }
-fn sem_iter<N: ArrayLength>() -> Option<String> {
+fn sem_iter<N: ArrayLength>() -> Option<String> { sem_iter_x::<u32, N>().or_else(|| sem_iter_x::<(), N>()) }
+fn sem_iter_x<V: Mk + Copy + PartialEq + std::fmt::Debug, N: ArrayLength>() -> Option<String> {
     use std::collections::VecDeque;
     let n = N::USIZE;
     let quiet = std::panic::take_hook();
     std::panic::set_hook(Box::new(|_| {}));
     let mut out = None;
-    'o: for f in 0..=n { for b in 0..=(n - f) { for op in 0..9 { for arg in 0..=(n + 2) {
+    'o: for f in 0..=n { for b in 0..=(n - f) { for op in 0..11 { for arg in 0..=(n + 2) {
         let r = catch_unwind(AssertUnwindSafe(|| {
-            let mut it = GenericArray::<u32, N>::generate(|i| i as u32).into_iter();
-            let mut m: VecDeque<u32> = (0..n as u32).collect();
+            let mut it = GenericArray::<V, N>::generate(V::mk).into_iter();
+            let mut m: VecDeque<V> = (0..n).map(V::mk).collect();
             for _ in 0..f { if it.next() != m.pop_front() { return Some("next".to_string()); } }
             for _ in 0..b { if it.next_back() != m.pop_back() { return Some("next_back".to_string()); } }
             let bad = match op {
@@ -305,14 +313,18 @@ fn sem_iter<N: ArrayLength>() -> Option<String> {
                 5 => it.as_slice().iter().copied().ne(m.iter().copied()),
                 6 => { let c = it.clone(); c.ne(m.iter().copied()) }
                 7 => { let l = m.len(); let c = it.count(); return if c != l { Some(format!("count() = {c}, {l} remaining")) } else { None } }
-                _ => { let w = m.back().copied(); let l = it.last(); return if l != w { Some(format!("last() = {l:?}, want {w:?}")) } else { None } }
+                8 => { let w = m.back().copied(); let l = it.last(); return if l != w { Some(format!("last() = {l:?}, want {w:?}")) } else { None } }
+                9 => { let mut seen = Vec::new(); let c = it.fold(0usize, |acc, x| { seen.push(x); acc + 1 }); let want: Vec<V> = m.iter().copied().collect();
+                       return if c != want.len() || seen != want { Some(format!("fold visited {c} element(s) {seen:?}, {} remaining {want:?}", want.len())) } else { None } }
+                _ => { let mut seen = Vec::new(); let c = it.rfold(0usize, |acc, x| { seen.push(x); acc + 1 }); let want: Vec<V> = m.iter().rev().copied().collect();
+                       return if c != want.len() || seen != want { Some(format!("rfold visited {c} element(s) {seen:?}, {} remaining {want:?}", want.len())) } else { None } }
             };
             if bad { return Some(format!("result differs from VecDeque")); }
             if it.len() != m.len() || it.as_slice().iter().copied().ne(m.iter().copied()) { return Some("post-state differs from VecDeque".to_string()); }
             None
         }));
         let msg = match r { Ok(None) => continue, Ok(Some(m)) => m, Err(_) => "panicked".to_string() };
-        out = Some(format!("GenericArrayIter<u32, U{n}> after {f} next / {b} next_back, op #{op} (0 next,1 next_back,2 nth,3 nth_back,4 len,5 as_slice,6 clone,7 count,8 last) arg {arg}: {msg}"));
+        out = Some(format!("GenericArrayIter<{}, U{n}> after {f} next / {b} next_back, op #{op} (0 next,1 next_back,2 nth,3 nth_back,4 len,5 as_slice,6 clone,7 count,8 last,9 fold,10 rfold) arg {arg}: {msg}", V::NAME));
         break 'o;
     } } } }
     std::panic::set_hook(quiet);
@@ -389,6 +401,24 @@ fn sem_order<N: ArrayLength>(op: &str) -> Option<String> {
         .or_else(|| sem_order_one::<Zd, Zd, N>(op)).or_else(|| sem_order_one::<String, String, N>(op)).or_else(|| sem_order_one::<Zd, String, N>(op)).or_else(|| sem_order_one::<String, Zd, N>(op))
 }
 
+/// try_from_iter / from_iter: Ok exactly when the source yields exactly N items (truthful exact and absent size hints; sized and zero-sized items)
+fn sem_collect<N: ArrayLength>() -> Option<String> { sem_collect_x::<u32, N>().or_else(|| sem_collect_x::<(), N>()).or_else(|| sem_collect_x::<String, N>()).or_else(|| sem_collect_x::<Zd, N>()) }
+fn sem_collect_x<V: Mk, N: ArrayLength>() -> Option<String> {
+    let n = N::USIZE;
+    for count in 0..=n + 2 { for hinted in [true, false] {
+        let r = catch_unwind(AssertUnwindSafe(|| {
+            let v: Vec<V> = (0..count).map(V::mk).collect();
+            if hinted { GenericArray::<V, N>::try_from_iter(v) } else { GenericArray::<V, N>::try_from_iter(v.into_iter().filter(|_| true)) }
+        }));
+        let who = format!("try_from_iter::<{}, U{n}> from {count} item(s), size hint {}", V::NAME, if hinted { "exact" } else { "(0, Some(count))" });
+        match r {
+            Err(_) => return Some(format!("{who}: panicked")),
+            Ok(Ok(a)) => { if count != n { return Some(format!("{who}: Ok")); } for (i, x) in a.iter().enumerate() { if let Some(v) = x.id() { if v != i { return Some(format!("{who}: item {v} at index {i}")); } } } }
+            Ok(Err(_)) => { if count == n { return Some(format!("{who}: LengthError")); } }
+        }
+    } }
+    None
+}
 fn semantic(sc: &str) -> Option<String> {
     if sc.starts_with("hex") { return sem_hex(); }
     if let Some(op) = sc.strip_prefix("order.") {
@@ -401,7 +431,7 @@ fn semantic(sc: &str) -> Option<String> {
     macro_rules! all { ($f:ident) => { $f::<U0>().or_else(|| $f::<U1>()).or_else(|| $f::<U2>()).or_else(|| $f::<U3>()).or_else(|| $f::<U4>()).or_else(|| $f::<U5>()) } }
     let quiet = std::panic::take_hook();
     std::panic::set_hook(Box::new(|_| {}));
-    let r = if sc.starts_with("iff.") { all!(sem_iff) } else if sc.starts_with("view.") { all!(sem_view) } else if sc.starts_with("chunks.") || sc.starts_with("unchunk.") { all!(sem_chunks) } else if sc.starts_with("iter.") { all!(sem_iter) } else { None };
+    let r = if sc.starts_with("iff.") { all!(sem_iff) } else if sc.starts_with("view.") { all!(sem_view) } else if sc.starts_with("chunks.") || sc.starts_with("unchunk.") { all!(sem_chunks) } else if sc.starts_with("iter.") { all!(sem_iter) } else if sc.starts_with("try_from_iter") { all!(sem_collect) } else { None };
     std::panic::set_hook(quiet);
     r
 }
@@ -419,16 +449,16 @@ mod sd {
     impl fmt::Display for DErr { fn fmt(&self, _f: &mut fmt::Formatter<'_>) -> fmt::Result { Ok(()) } }
     impl std::error::Error for DErr {}
     impl de::Error for DErr { fn custom<T: fmt::Display>(_m: T) -> Self { DErr } }
-    pub struct TrD(#[allow(dead_code)] pub E);
-    impl<'de> Deserialize<'de> for TrD {
-        fn deserialize<D: Deserializer<'de>>(d: D) -> Result<TrD, D::Error> {
-            struct V;
-            impl<'de> Visitor<'de> for V {
-                type Value = TrD;
+    pub struct TrD<X>(#[allow(dead_code)] pub X);
+    impl<'de, X: El> Deserialize<'de> for TrD<X> {
+        fn deserialize<D: Deserializer<'de>>(d: D) -> Result<TrD<X>, D::Error> {
+            struct V<X>(std::marker::PhantomData<X>);
+            impl<'de, X: El> Visitor<'de> for V<X> {
+                type Value = TrD<X>;
                 fn expecting(&self, _f: &mut fmt::Formatter) -> fmt::Result { Ok(()) }
-                fn visit_u8<X: de::Error>(self, v: u8) -> Result<TrD, X> { Ok(TrD(E::new(v as usize))) }
+                fn visit_u8<Er: de::Error>(self, v: u8) -> Result<TrD<X>, Er> { Ok(TrD(X::new(v as usize))) }
             }
-            d.deserialize_u8(V)
+            d.deserialize_u8(V::<X>(std::marker::PhantomData))
         }
     }
     pub struct ElemDe(pub u8);
@@ -475,7 +505,7 @@ mod sd {
         }
     }
     /// -> first configuration showing `want` ("leak" | "double-drop" | "semantic")
-    pub fn sweep<N: ArrayLength>(want: &str) -> Option<String> {
+    pub fn sweep<X: El, N: ArrayLength>(want: &str) -> Option<String> {
         let n = N::USIZE;
         let hints = |m: usize| -> Vec<Option<usize>> { std::iter::once(None).chain((0..=m).map(Some)).collect() };
         for count in 0..=n + 2 { for err_at in 0..=n + 3 { for hint_up in hints(n + 2) { for hint_later in hints(1) {
@@ -486,11 +516,11 @@ mod sd {
                 let mut ok = false;
                 let mut order_ok = true;
                 let panicked = tracked(|| {
-                    let r: Result<GenericArray<TrD, N>, DErr> = GenericArray::deserialize(ScriptDe(&mut s));
-                    if let Ok(a) = &r { ok = true; order_ok = a.iter().enumerate().all(|(i, e)| (e.0).0 == i); }
+                    let r: Result<GenericArray<TrD<X>, N>, DErr> = GenericArray::deserialize(ScriptDe(&mut s));
+                    if let Ok(a) = &r { ok = true; order_ok = X::ZST || a.iter().enumerate().all(|(i, e)| (e.0).idv() == i); }
                     drop(r);
                 });
-                let cfg = format!("scenario=serde.visit_seq N={n} count={count} err_at={} hint_up={hint_up:?} hint_later={hint_later:?} panic_call={} panicked={panicked} ok={ok}",
+                let cfg = format!("scenario=serde.visit_seq element={} N={n} count={count} err_at={} hint_up={hint_up:?} hint_later={hint_later:?} panic_call={} panicked={panicked} ok={ok}", if X::ZST { "zero-sized" } else { "sized" },
                     if err_at > n + 2 { "-".to_string() } else { err_at.to_string() }, if pc == usize::MAX { "-".to_string() } else { pc.to_string() });
                 match (want, verdict()) {
                     ("leak", Some((Kind::Leak, m))) | ("double-drop", Some((Kind::DoubleDrop, m))) => return Some(format!("{cfg}: {m}")),
@@ -514,7 +544,8 @@ mod sd {
 fn serde_sweep(want: &str) -> Option<String> {
     let quiet = std::panic::take_hook();
     std::panic::set_hook(Box::new(|_| {}));
-    let r = sd::sweep::<U0>(want).or_else(|| sd::sweep::<U1>(want)).or_else(|| sd::sweep::<U2>(want)).or_else(|| sd::sweep::<U3>(want)).or_else(|| sd::sweep::<U4>(want));
+    let r = sd::sweep::<E, U0>(want).or_else(|| sd::sweep::<E, U1>(want)).or_else(|| sd::sweep::<E, U2>(want)).or_else(|| sd::sweep::<E, U3>(want)).or_else(|| sd::sweep::<E, U4>(want))
+        .or_else(|| sd::sweep::<Zt, U0>(want)).or_else(|| sd::sweep::<Zt, U1>(want)).or_else(|| sd::sweep::<Zt, U2>(want)).or_else(|| sd::sweep::<Zt, U3>(want));
     std::panic::set_hook(quiet);
     r
 }
@@ -545,7 +576,7 @@ fn validate_iter() {
         let n = <$N>::USIZE;
         for f in 0..=n { for b in 0..=(n - f) { for (which, args) in [("nth", n + 2), ("nth_back", n + 2), ("next", 1), ("next_back", 1)] { for k in 0..args {
             reset(usize::MAX, usize::MAX);
-            let mut it = position::<$N>(f, b);
+            let mut it = position::<E, $N>(f, b);
             let before = DROPS.with(|d| *d.borrow());
             let r = match which { "nth" => it.nth(k), "nth_back" => it.nth_back(k), "next" => it.next(), _ => it.next_back() };
             let ret = r.as_ref().map(|e| e.0);
@@ -595,7 +626,8 @@ fn main() {
     let mut r = None;
     for v in variants {
         let cfg = Cfg { scenario: v, want };
-        r = sweep::<U0>(&cfg).or_else(|| sweep::<U1>(&cfg)).or_else(|| sweep::<U2>(&cfg)).or_else(|| sweep::<U3>(&cfg)).or_else(|| sweep::<U4>(&cfg));
+        r = sweep::<E, U0>(&cfg).or_else(|| sweep::<E, U1>(&cfg)).or_else(|| sweep::<E, U2>(&cfg)).or_else(|| sweep::<E, U3>(&cfg)).or_else(|| sweep::<E, U4>(&cfg))
+            .or_else(|| sweep::<Zt, U1>(&cfg)).or_else(|| sweep::<Zt, U2>(&cfg)).or_else(|| sweep::<Zt, U3>(&cfg)).or_else(|| sweep::<Zt, U4>(&cfg));
         if r.is_some() { break; }
     }
     let cfg = Cfg { scenario: args[1].clone(), want };
